@@ -31,7 +31,7 @@ def make_engine(repo, schema, contracts, loop_specs, spec_funcs, inline=None, sa
 
 
 def verify(repo, con, schema, callee_contracts=(), loop_specs=None, spec_funcs=None, inline=None, safety=False,
-           timeout_ms=30000, config="", overrides=None, tactic=None, canary=True):
+           timeout_ms=30000, config="", overrides=None, tactic=None, canary=True, defer=False):
     rep = FuncReport(con, config)
     t0 = time.time()
     obligations, covers = [], []
@@ -81,7 +81,40 @@ def verify(repo, con, schema, callee_contracts=(), loop_specs=None, spec_funcs=N
     except Unsupported as e:
         rep.error = str(e)
     rep.symexec_s = time.time() - t0
-    if rep.error is None:
-        rep.results = discharge.discharge(obligations, timeout_ms=timeout_ms, tactic=tactic)
-        rep.covers = discharge.check_sat(covers)
+    # serialise (SMT-LIB2 text) so that reports can cross process boundaries; z3 objects are dropped
+    rep.pending = ([discharge.serialize(o) for o in obligations], [discharge.serialize_cover(c) for c in covers],
+                   timeout_ms, tactic)
+    rep.engine = None
+    if not defer:
+        finish_reports([rep])
     return rep
+
+
+def finish_reports(reps):
+    """discharge the obligations of many reports in one batch (keeps all cores busy)"""
+    todo = [r for r in reps if r.error is None and getattr(r, "pending", None) is not None]
+    if not todo:
+        return
+    allobs, owners = [], []
+    for r in todo:
+        for ob in r.pending[0]:
+            allobs.append(ob)
+            owners.append(r)
+    tmo = max(r.pending[2] for r in todo)
+    results = discharge.discharge(allobs, timeout_ms=tmo, tactic=todo[0].pending[3])
+    for r in todo:
+        r.results = []
+    for res, owner in zip(results, owners):
+        owner.results.append(res)
+    allcov, cown = [], []
+    for r in todo:
+        for c in r.pending[1]:
+            allcov.append(c)
+            cown.append(r)
+    cres = discharge.check_sat(allcov)
+    for r in todo:
+        r.covers = []
+    for c, owner in zip(cres, cown):
+        owner.covers.append(c)
+    for r in todo:
+        r.pending = None
